@@ -1,6 +1,7 @@
 CONSTANTS
   Level = 1
   MaxSteps = 14
+  Focus = 0
   Tokens <- TokensDef
   Risk <- RiskDef
   Rows <- RowsDef
